@@ -414,8 +414,13 @@ def do_gc(cx, res):
             if ev["t"] == "check" and ev.get("async"):
                 t, mc0 = ev["ts"], (ev.get("mincs") or [0])[0]
                 answers, j = [], i + 1
-                while j < len(evs) and evs[j]["t"] == "checksec" and evs[j]["ts"] == t:
+                while j < len(evs) and evs[j]["t"] == "checksec":
                     a = evs[j]
+                    if a["ts"] != t:
+                        # a late answer for an earlier transaction: checkAllSecondaries returns on the first error (nonAsyncCommitLock)
+                        # without waiting for the other regions' requests, whose answers are then logged later
+                        j += 1
+                        continue
                     answers.append("M" + hexn(a.get("commit", 0)) if a.get("err") == "missing" else
                                    "L" + "+".join(hexn(x) for x in a.get("mincs") or []) + ("!" if a.get("nonasync") else ""))
                     j += 1
@@ -623,6 +628,15 @@ def do_vist(cx, res):
     elif exp == "ok" and got == "ok":
         want = sorted(k + "=" + vals[k] for k in c["keys"])
         cx.oracle(sorted(entries) == want, res, "C14_visibility_schedule(served read returns the data)", "%s vs %s" % (entries, want))
+    # re-reads of a refused key on the same snapshot object must not be served from the snapshot cache (seed C14-8; the cache model is C05's)
+    cur_inner = cached
+    for ev in evs:
+        if ev["t"] == "update" and ev.get("s") != "after_call":
+            cur_inner = ev["sp"]
+    if got == "gc" and ts < cur_inner:
+        bad_re = [rd for rd in res.get("late") or [] if rd["res"] != "gc"]
+        cx.oracle(not bad_re, res, "C14_visibility_schedule(a refused read leaves nothing in the snapshot cache: re-reads stay refused)", json.dumps(bad_re))
+        cx.stats["vist-reread-after-refused"] += len(res.get("late") or [])
     later = res["vis"][1]["res"] if len(res["vis"]) > 1 else None
     cx.oracle((later == "gc") == (ts < cur), res, "C14_visibility(a later read sees the safe point learned after the call)", "later get: %s, cached %d, ts %d" % (later, cur, ts))
     cx.sigs.add(("vist", path, tuple(inst), exp, served if per_batch else 0, c.get("batch_size") if per_batch else 0))
